@@ -3,7 +3,7 @@ import common
 import apicheck as A
 import docx as D
 
-PROFILE = dict(optional_absent=0.4, p_dangling_style=0.4, p_numbering=0.5, p_altcontent=0.2, p_sym=0.15, p_unknown=0.15, p_image=0.15, p_sdt=0.15,
+PROFILE = dict(p_table_junk=0.06, optional_absent=0.4, p_dangling_style=0.4, p_numbering=0.5, p_altcontent=0.2, p_sym=0.15, p_unknown=0.15, p_image=0.15, p_sdt=0.15,
                p_break=0.2, style_map=0.4, markdown=0.33, p_field=0.2, p_comment=0.15, p_note=0.15, separators=True, p_embedded_map=0.15, p_empty=0.25, p_comment_in_comment=0.5)
 
 
